@@ -236,4 +236,43 @@ example : sgn (Cmp.cmpKeys .vnum false (Vnum.enc 127) (Vnum.enc 128) 0) = 1 ∧
   ⟨vnum_numeric 127 128 0 (by decide) (by decide), vnum_numeric 300 200 0 (by decide) (by decide),
    vnum_compound_numeric 5 5 9 10 (by decide) (by decide)⟩
 
+/-! ## key comparators — real-number keys (`IWDB_REALNUM_KEYS`, `iwafcmp`) -/
+
+/-- `iwafcmp` is a strict total order on byte strings for EVERY way of turning the fraction digits
+    into a value (`frac`, e.g. the long-double accumulation of the C code with whatever rounding) as
+    long as `lt` on those values is a strict weak order: it is antisymmetric, zero only on identical
+    byte strings, and transitive. It is the lexicographic product of the signed integer part, the
+    fraction value and the bytes (`Cmp.afcmpWith_eq`). -/
+theorem real_total {α : Type} (lt : α → α → Bool) (zero : α) (frac : Int → List Nat → α)
+    (h : Cmp.StrictWeak lt) (a b c : Bytes) :
+    sgn (Cmp.afcmpWith lt zero frac a b) = - sgn (Cmp.afcmpWith lt zero frac b a) ∧
+    (Cmp.afcmpWith lt zero frac a b = 0 ↔ a = b) ∧
+    (Cmp.afcmpWith lt zero frac a b < 0 → Cmp.afcmpWith lt zero frac b c < 0 →
+      Cmp.afcmpWith lt zero frac a c < 0) :=
+  ⟨Cmp.afcmpWith_antisymm lt zero frac h a b, Cmp.afcmpWith_eq_zero lt zero frac h a b,
+   Cmp.afcmpWith_trans lt zero frac h a b c⟩
+
+/-- the same for a strict linear order on the fraction values: irreflexive, transitive, trichotomous -/
+theorem real_total_linear {α : Type} (lt : α → α → Bool) (zero : α) (frac : Int → List Nat → α)
+    (irrefl : ∀ x, lt x x = false) (trans : ∀ x y z, lt x y = true → lt y z = true → lt x z = true)
+    (tri : ∀ x y, lt x y = true ∨ x = y ∨ lt y x = true) (a b c : Bytes) :
+    sgn (Cmp.afcmpWith lt zero frac a b) = - sgn (Cmp.afcmpWith lt zero frac b a) ∧
+    (Cmp.afcmpWith lt zero frac a b = 0 ↔ a = b) ∧
+    (Cmp.afcmpWith lt zero frac a b < 0 → Cmp.afcmpWith lt zero frac b c < 0 →
+      Cmp.afcmpWith lt zero frac a c < 0) :=
+  real_total lt zero frac (Cmp.StrictWeak.of_linear lt irrefl trans tri) a b c
+
+/-- instance: the executable comparator of the model (exact fractions) and with it `_cmp_keys` in
+    real-number mode, plain layout (`> 0` iff the lookup key `k` sorts after the stored key `v1`) -/
+theorem real_keys_total (a b c : Bytes) (c2 : Nat) :
+    Cmp.cmpKeys .real false a b c2 = Cmp.afcmp b a ∧
+    sgn (Cmp.afcmp a b) = - sgn (Cmp.afcmp b a) ∧ (Cmp.afcmp a b = 0 ↔ a = b) ∧
+    (Cmp.afcmp a b < 0 → Cmp.afcmp b c < 0 → Cmp.afcmp a c < 0) := by
+  refine ⟨by simp [Cmp.cmpKeys, Cmp.cmpPrefix], ?_⟩
+  exact real_total_linear _ _ _ (by simp) (by simp only [decide_eq_true_eq]; omega)
+    (by simp only [decide_eq_true_eq]; omega) a b c
+
+/-- non-vacuity: "1.5" < "1.50" < "2" — fraction tie broken by the bytes; integer part decides -/
+example : Cmp.afcmp [49, 46, 53] [49, 46, 53, 48] < 0 ∧ Cmp.afcmp [49, 46, 53, 48] [50] < 0 := by decide
+
 end IwModel.C19
